@@ -148,7 +148,7 @@ def run_history(case):
                 opts[f] = v
         v = case["version"]
         creator = case.get("creator") or ("TorrentFile" if v == 1 else "TorrentAssembler")
-        st = create_meta({"creator": creator, "version": v, "P": case["P"], "opts": opts}, root, out)
+        st = create_meta({"creator": creator, "version": v, "P": case["P"], "opts": opts, "align": bool(case.get("align"))}, root, out)
         base = {"group": case["group"], "version": v}
         rid = case["id"] * 100
         if st != "ok" or not os.path.isfile(out):
